@@ -32,6 +32,8 @@ type Field struct {
 	FromBytesStrict         bool
 	FromBytesMax            *big.Int
 	InvZeroDefined          bool
+	InvSmall                func(z int, x uint64) // table-driven inverse of a small integer (every table entry is exercised)
+	InvSmallMax             uint64
 	FoldBits                uint // >0: raw elements of this many bits over a pseudo-Mersenne prime; operand pairs whose product needs the SECOND carry fold are added
 	MontBits                uint // >0: elements are kept in Montgomery form with R = 2^MontBits; operands whose INTERNAL limbs are structured are added
 }
@@ -482,6 +484,21 @@ func Run(f *Field, rng *rand.Rand, n int, emit func(Event)) {
 			if !e.Strict {
 				hint(&e, 0, v, f.Get(0))
 			}
+			emit(e)
+		}
+	}
+	// 4. inverses of small integers taken from a table: every entry, stated as "inv" of a register that holds the integer
+	if f.InvSmall != nil {
+		for x := uint64(1); x <= f.InvSmallMax+2; x++ {
+			for r := 0; r < f.NRegs; r++ {
+				f.Set(r, pick())
+			}
+			f.Set(0, new(big.Int).SetUint64(x))
+			e := base("inv", 0, 0, 1)
+			e.Pre = f.snapshot()
+			f.InvSmall(1, x)
+			e.Post = f.snapshot()
+			hint(&e, 0, new(big.Int).Mul(f.Get(1), new(big.Int).SetUint64(x)), big.NewInt(1))
 			emit(e)
 		}
 	}
